@@ -3,6 +3,7 @@ package props
 import (
 	"fmt"
 	"strings"
+	"sync"
 	"time"
 
 	"github.com/relab/hotstuff"
@@ -46,6 +47,7 @@ func e1Runs(quick bool) []e1Run {
 			runs = append(runs,
 				e1Run{"all interleavings, fault-free", cluster.Config{N: 4, Rules: rs, Horizon: 2, Timeouts: 1}, -1, 15 * time.Minute},
 				e1Run{"<=2 deviations, fault-free", cluster.Config{N: 4, Rules: rs, Horizon: 6, Timeouts: 12, Dups: 1, Drops: true}, 2, 15 * time.Minute},
+				e1Run{"<=1 deviation, fault-free, n=7", cluster.Config{N: 7, Rules: rs, Horizon: 5, Timeouts: 12, Drops: true}, 1, 10 * time.Minute},
 			)
 			if !fast {
 				runs = append(runs,
@@ -70,6 +72,22 @@ func e1Check(r *ev.Reporter, prop string, _ []string) {
 				return
 			}
 			r.Violation(fmt.Sprintf("%s %s: %s", prop, run.cfg.Rules, v.Sig), fmt.Sprintf("%s, events [%s]: %s", desc, strings.Join(path, " | "), v.What), map[string]any{"config": desc, "events": path})
+		}
+		var sampleMu sync.Mutex
+		sampled := false
+		ex.OnState = func(w *cluster.World, path []string) {
+			if len(path) >= 12 && !sampled {
+				sampleMu.Lock()
+				if !sampled {
+					sampled = true
+					views := []int{}
+					for _, n := range w.Nodes {
+						views = append(views, int(n.VS.View()))
+					}
+					r.Sample(map[string]any{"run": desc, "events": append([]string(nil), path...), "views_after": views, "commits_observed": w.Mon.Commits})
+				}
+				sampleMu.Unlock()
+			}
 		}
 		ex.Run()
 		if d := ex.Diverged.Load(); d != nil {
